@@ -5,6 +5,7 @@
 package rpc
 
 import (
+	"github.com/basecomplextech/baselibrary/async"
 	"github.com/basecomplextech/baselibrary/status"
 	"github.com/basecomplextech/spec"
 	"github.com/basecomplextech/spec/proto/prpc"
@@ -35,6 +36,15 @@ func WrapErrorf(err error, format string, a ...any) status.Status {
 }
 
 // internal
+
+// contextStatus returns the status of a context which is done, never OK (see mpx).
+func contextStatus(ctx async.Context) status.Status {
+	st := ctx.Status()
+	if st.OK() {
+		return status.Cancelled
+	}
+	return st
+}
 
 func parseStatus(s prpc.Status) status.Status {
 	code := parseStatusCode(s.Code())
